@@ -240,6 +240,7 @@ func init() {
 		wireOrder(wc, r, "C02", "dec")
 		wireFieldOrderEmission(wc, r, "C02", map[string]bool{"dec": true})
 		sizeSumHonoursRepeat(w, r, "C02")
+		r.refile("C05/key-as-written", "C02/key-as-written", func(sr *Report) { wireKeyAsWritten(w, wc, sr, "C05") }, nil)
 		wireModelFrame(w, r, "C02", frameWire, nil, map[string]bool{"Field": true, "MatchPair": true}, "a generator rewrites the part of the shared model the decoders are derived from: the decoders of the targets generated after it no longer mirror the declared layout")
 		wireAssumptions(r)
 	})
@@ -282,6 +283,7 @@ func init() {
 		// a key maps to exactly one packet: the parse phase rejects a key that occurs twice in one table (across pairs and lists)
 		visitorKeepsNoPacketState(w, r, "C05")
 		matchKeysCheckedWhereverCollected(w, r, "C05")
+		matchTableReadFromTheField(w, r, "C05", func(fn *ssa.Function) bool { return isGeneratorFunc(fn) && recvNamedCore(fn) != "LuaWspGenerator" }, "the dispatch emitted for a match field is built from the table of another match field of the same key")
 		fieldsWithTheirPacket(w, wc, r, "C05")
 		r.refile("C12/namespace", "C05/match-keys-unique", func(sr *Report) { c12Namespaces(w, sr) }, func(o Obligation) bool {
 			return strings.Contains(o.Key, "match key")
@@ -323,6 +325,7 @@ func init() {
 		// the size of a checksum field comes from its resolved type, not from the type as it was spelled (uint32 has no table row)
 		wireRawType(w, r, "C15", "CheckSumFieldAttribute.Type")
 		sizeSumHonoursRepeat(w, r, "C15")
+		matchTableReadFromTheField(w, r, "C15", func(fn *ssa.Function) bool { return recvNamedCore(fn) == "LuaWspGenerator" }, "the dissector emitter works on the table of another match field of the same key")
 		nameKeyedSetOverInline(w, r, "C15", func(fn *ssa.Function) bool { return recvNamedCore(fn) == "LuaWspGenerator" }, "the dissector emitter remembers packets under their names and consults that set for inline objects too: of two inline objects that share a name only the first gets its dissector / its place in the order")
 		wireModelFrame(w, r, "C15", framePackets, nil, map[string]bool{"Packet": true, "Field": true}, "a generator rewrites the packet list / a field list in the shared model: a packet whose slot was overwritten loses its dissector function although it is still called")
 		wireEveryMatchField(w, wc, r, "C15", []string{"lua"})
